@@ -151,6 +151,14 @@ func checkC10(c *Ctx) {
 	c.c10Paths()
 	// what writeIndex reports as written is what a fresh process will read: the temporary
 	// index is installed only after a successful flush and close (decided by C11's rule)
+	// a purged mailbox stays gone across a restart: the index goes first (decided by C11), so a
+	// stop part-way cannot leave an index that lists messages whose bodies were already removed
+	nP := c.borrow(func(c2 *Ctx) {
+		if m2 := c2.fsModel(); m2 != nil {
+			c2.c11Purge(m2)
+		}
+	}, "C11/ORDER/purge", "C10/PURGE/index-first", "when a mailbox directory is removed the index is unlinked before anything else")
+	r.Floor("C10/PURGE/index-first", "borrowed obligations", nP, 1)
 	nB := c.borrow(checkC11, "C11/ATOMIC/index/", "C10/PERSIST/index-install", "the new index replaces the old one only after its buffered writer was flushed and the file closed without error: a write fault cannot be reported as success while an incomplete index is installed")
 	r.Floor("C10/PERSIST/index-install", "borrowed obligations", nB, 1)
 	// an index written back from a snapshot that was loaded in an earlier critical section
